@@ -122,6 +122,12 @@ EXT_DEFAULTS = {
     "sklearn.metrics.jaccard_score": {"labels": None, "pos_label": 1, "average": "binary", "sample_weight": None, "zero_division": "warn"},
     "shapely.buffer": {"quad_segs": 8, "cap_style": "round", "join_style": "round", "mitre_limit": 5.0, "single_sided": False},
     "shapely.transform": {"include_z": False},
+    "shapely.geometry.box": {"ccw": True},
+    "shapely.box": {"ccw": True},
+    "shapely.linestrings": {"y": None, "z": None, "indices": None, "out": None},
+    "shapely.points": {"y": None, "z": None, "indices": None, "out": None},
+    "shapely.geometry.Polygon": {"holes": None},
+    "shapely.Polygon": {"holes": None},
     "shapely.to_geojson": {"indent": None},
     "rasterio.features.rasterize": {"out": None, "fill": 0, "all_touched": False, "merge_alg": None, "default_value": 1, "dtype": None},
     "scipy.sparse.coo_array": {"copy": False},
@@ -141,6 +147,43 @@ EXT_DEFAULTS = {
     "builtin:max": {"key": None},
     "builtin:sum": {"start": 0},
     "builtin:open": {"mode": "r", "buffering": -1, "encoding": None, "errors": None, "newline": None, "closefd": True, "opener": None},
+}
+def _load_pkg_methods():
+    """{method name: {positional parameter names after self / cls}} over the classes of the reference tree"""
+    out = {}
+    try:
+        with open(os.path.join(os.path.dirname(os.path.abspath(__file__)), "pinned_decls.json")) as f_:
+            fns = json.load(f_)["functions"]
+    except (OSError, KeyError, ValueError):
+        return out
+    for k_, v_ in fns.items():
+        q_ = k_.split(":")[1]
+        if "." in q_ and not q_.split(".")[1].startswith("__") and v_["pos"] and v_["pos"][0] in ("self", "cls"):
+            out.setdefault(q_.split(".")[1], set()).add(tuple(v_["pos"][1:]))
+    return out
+
+
+_PKG_METHODS = _load_pkg_methods()
+
+# named constants of third-party / standard modules (trusted values)
+EXT_CONSTANTS = {"soundfile.SEEK_SET": 0, "soundfile.SEEK_CUR": 1, "soundfile.SEEK_END": 2, "os.SEEK_SET": 0, "os.SEEK_CUR": 1, "os.SEEK_END": 2,
+                 "io.SEEK_SET": 0, "io.SEEK_CUR": 1, "io.SEEK_END": 2}
+# leading positional parameters of methods the package calls (pandas / shapely / numpy), so that `m(label=v, side="right")` is `m(v, "right")`
+METHOD_SIGNATURES = {
+    "get_slice_bound": ("label", "side"),
+    "intersection": ("other",),
+    "union": ("other",),
+    "get_axis_num": ("dim",),
+    "astype": ("dtype",),
+    "seek": ("frames", "whence"),
+    "read": ("frames", "dtype", "always_2d"),
+    "relative_to": ("other",),
+    "encode": ("tag",),
+    "decode": ("index",),
+    "get": ("key", "default"),
+    "split": ("sep", "maxsplit"),
+    "remove": ("value",),
+    "append": ("object",),
 }
 # the same for methods, by method name, restricted to options whose default no class in use here defines otherwise
 METHOD_DEFAULTS = {
@@ -165,6 +208,13 @@ METHOD_DEFAULTS = {
     "astype": {"copy": True},
     "tolist": {},
     "buffer": {"cap_style": "round", "join_style": "round", "mitre_limit": 5.0, "single_sided": False},
+    "intersection": {"grid_size": None},
+    "union": {"grid_size": None},
+    "difference": {"grid_size": None},
+    "symmetric_difference": {"grid_size": None},
+    "reindex": {"method": None, "tolerance": None, "copy": True},
+    "read_text": {"encoding": None, "errors": None},
+    "write_text": {"encoding": None, "errors": None, "newline": None},
     "get": {"default": None},
     "pop": {},
     "read": {"frames": -1, "dtype": "float64", "always_2d": False, "fill_value": None, "out": None},
@@ -1268,7 +1318,30 @@ class Evaluator:
         self.loop_stack.append(lid)
         elem_v = value if value is not None else ("elem", lid)
         self.assign(st.target, elem_v, live, st)
-        inner = AND(live, ("inloop", lid), *conds)
+        if value is None and it[0] == "call" and it[1] == ("builtin", "zip") and not it[3] and isinstance(st.target, ast.Tuple) \
+                and len(st.target.elts) == len(it[2]) and not any(a[0] == "star" for a in it[2]):
+            # for r, c, v in zip(R, C, M[R, C]): numpy's integer-array indexing is element-wise, so v is M[r, c]
+            derived_ = []
+            for k_, (tn_, a_) in enumerate(zip(st.target.elts, it[2])):
+                if isinstance(tn_, ast.Name) and a_[0] == "sub" and a_[2][0] == "tuple" and len(a_[2][1]) >= 2 \
+                        and all(c_ in it[2] and c_ != a_ and c_[0] not in ("const", "slice") for c_ in a_[2][1]):
+                    self.env[tn_.id] = ("sub", a_[1], ("tuple", tuple(("sub", ("elem", lid), ("const", it[2].index(c_))) for c_ in a_[2][1])))
+                    derived_.append(k_)
+            if derived_ and derived_ == list(range(len(it[2]) - len(derived_), len(it[2]))) and len(it[2]) - len(derived_) >= 2:
+                # the derived columns are trailing: the loop is the zip of the others (same element positions)
+                it = ("call", it[1], it[2][:len(it[2]) - len(derived_)], ())
+                self.loops[lid].iter = it
+        # inside the loop its iterable is known to be non-empty: a guard `if xs:` / `if len(xs) > 0:` around (or an early exit
+        # `if not xs: return` before) the loop adds nothing to the condition of what happens in the body
+        ln_ = ("call", ("builtin", "len"), (it,), ())
+        implied = {it, ("cmp", "gt", ln_, ("const", 0)), ("cmp", "ne", ln_, ("const", 0)), ("cmp", "ge", ln_, ("const", 1)),
+                   ("cmp", "lt", ("const", 0), ln_), ("cmp", "le", ("const", 1), ln_), ln_,
+                   NOT(("cmp", "eq", ln_, ("const", 0))), NOT(("cmp", "eq", it, ("list", ())))}
+        if value is None and it[0] in ("param", "attr", "name", "sub", "loopout"):
+            live_in = AND(*[c_ for c_ in conjuncts(live) if c_ not in implied])
+        else:
+            live_in = live
+        inner = AND(live_in, ("inloop", lid), *conds)
         for p in reversed(preds):
             c = self._fold_records(fold_sub(self._apply_fn(p, [elem_v])))
             self.emit("break", AND(inner, NOT(c)), NONE, st)
@@ -1294,8 +1367,7 @@ class Evaluator:
         if st.orelse:
             brk = [e for e in self.events if e.kind == "break" and e.loops and e.loops[-1] == lid]
             if not brk:
-                self.block(st.orelse, live)
-                return live
+                return self.block(st.orelse, live)
             # the else clause runs iff the loop was not left by `break`
             B = ("broke", lid)
             env_b = dict(self.env)
@@ -1519,6 +1591,8 @@ class Evaluator:
                 return sym_term(s)
             return ("attr", base, n.attr)
         if base[0] == "ext":
+            if base[1] + "." + n.attr in EXT_CONSTANTS:
+                return ("const", EXT_CONSTANTS[base[1] + "." + n.attr])
             return ("ext", base[1] + "." + n.attr)
         if base[0] in ("call", "ite") and self._is_record(base):
             v = self._record_get(base, attr=n.attr)
@@ -1865,12 +1939,51 @@ class Evaluator:
                 else METHOD_DEFAULTS.get(f[2]) if f[0] == "attr" else None
             if dflt:
                 named = [(k_, v_) for k_, v_ in named if not (k_ in dflt and v_[0] == "const" and v_[1] == dflt[k_] and type(v_[1]) is type(dflt[k_]))]
+        if f[0] == "ext" and f[1] in ("numpy.zeros", "numpy.ones", "numpy.empty", "numpy.full") and named:
+            # the default element type spelled out
+            named = [(k_, v_) for k_, v_ in named if not (k_ == "dtype" and v_ in (("builtin", "float"), ("ext", "numpy.float64"), ("ext", "numpy.double"),
+                                                                                  ("const", "float64"), ("const", "float"), ("const", None)))]
+        if not named and not spreads and not any(a[0] == "star" for a in args):
+            if f == ("builtin", "range") and "range" not in self.env:
+                if len(args) == 3 and args[2] == ("const", 1):
+                    args = args[:2]
+                if len(args) == 2 and args[0] == ("const", 0):
+                    args = args[1:]
+            elif f == ("builtin", "enumerate") and "enumerate" not in self.env and len(args) == 2 and args[1] == ("const", 0):
+                args = args[:1]
+            elif f[0] == "attr" and f[2] == "get" and len(args) == 2 and args[1] == NONE:
+                args = args[:1]
+            elif f == ("builtin", "round") and "round" not in self.env and len(args) == 2 and args[1] == NONE:
+                args = args[:1]
+        if f[0] == "attr" and named and not spreads and f[2] in _PKG_METHODS and f[2] not in METHOD_SIGNATURES \
+                and not any(a[0] == "star" for a in args):
+            # a method of the package called by keyword: positional when every class that defines a method of that name agrees
+            sigs_ = _PKG_METHODS[f[2]]
+            kd = dict(named)
+            args = list(args)
+            if len(sigs_) == 1:
+                sig = next(iter(sigs_))
+                while len(args) < len(sig) and sig[len(args)] in kd:
+                    args.append(kd.pop(sig[len(args)]))
+            elif all(len(sg_) == 1 for sg_ in sigs_) and not args and len(kd) == 1 and next(iter(kd)) in {sg_[0] for sg_ in sigs_}:
+                args.append(kd.pop(next(iter(kd))))
+            named = sorted(kd.items(), key=lambda kv: kv[0])
+        if f[0] == "attr" and f[2] in METHOD_SIGNATURES and named and not spreads and not any(a[0] == "star" for a in args) \
+                and f[1] not in (("param", "self"), ("param", "cls")):
+            sig = METHOD_SIGNATURES[f[2]]
+            kd = dict(named)
+            args = list(args)
+            while len(args) < len(sig) and sig[len(args)] in kd:
+                args.append(kd.pop(sig[len(args)]))
+            named = sorted(kd.items(), key=lambda kv: kv[0])
         if f[0] == "ext" and f[1] in EXT_SIGNATURES and named and not spreads and not any(a[0] == "star" for a in args):
             sig = EXT_SIGNATURES[f[1]]
             kd = dict(named)
             while len(args) < len(sig) and sig[len(args)] in kd:
                 args.append(kd.pop(sig[len(args)]))
             named = sorted(kd.items(), key=lambda kv: kv[0])
+        if f[0] == "global" and f[2] == "func" and not spreads and not any(a[0] == "star" for a in args):
+            args, named = self._reference_spelling(f[1], args, named)
         if f[0] == "global" and f[2] == "assign":
             f = self._getter_global(f)
         if f[0] == "global" and f[2] == "class" and self._is_record(("call", f, (), ())):
@@ -1885,6 +1998,10 @@ class Evaluator:
             args = [ident(a_, v_, f"arg{i_}") for i_, (a_, v_) in enumerate(zip(n.args, args))]
             kwn = {k.arg: k.value for k in n.keywords if k.arg is not None}
             named = [(k_, ident(kwn[k_], v_, k_) if k_ in kwn else v_) for k_, v_ in named]
+        if f == ("builtin", "isinstance") and "isinstance" not in self.env and not named and not spreads and len(args) == 2 \
+                and args[1][0] == "tuple" and len(args[1][1]) >= 2 and not any(c_[0] == "star" for c_ in args[1][1]):
+            # isinstance(x, (A, B)) is isinstance(x, A) or isinstance(x, B)
+            return OR(*[("call", f, (args[0], c_), ()) for c_ in args[1][1]])
         norm = self._norm_call(f, args, named, spreads, live, n)
         if norm is not None:
             return norm
@@ -2486,6 +2603,49 @@ class Evaluator:
         except ValueError:
             return None
         return out
+
+    def _reference_spelling(self, qual, args, named):
+        """A call to a reference function passes each argument positionally or by keyword as the reference tree's call sites do
+        (the same caller's site when there is one, else the most common spelling): `f(geom=g)` and `f(g)` are one call."""
+        from .alias import CALLS
+        ent = CALLS.get(qual)
+        if not ent or not ent.get("sites") or "npos" not in ent["sites"][0]:
+            return args, named
+        params = ent["params"]
+        mine = [s_["npos"] for s_ in ent["sites"] if s_["caller"] == self.qual.split("@")[0]]
+        pool = mine if mine and len(set(mine)) == 1 else [s_["npos"] for s_ in ent["sites"]]
+        want = max(set(pool), key=lambda v_: (pool.count(v_), -v_))
+        if len(args) > len(params):
+            return args, named
+        bound = dict(zip(params, args))
+        for k_, v_ in named:
+            if k_ not in params or k_ in bound:
+                return args, named
+            bound[k_] = v_
+        # an argument that passes the callee's own (constant) default is the same call as one that omits it
+        try:
+            _, fn_ = self.index.need_func(*qual.split(":"))
+            a_ = fn_.args
+            pos_ = list(a_.posonlyargs) + list(a_.args)
+            dflt_ = {p_.arg: d_ for p_, d_ in zip(pos_[len(pos_) - len(a_.defaults):], a_.defaults)}
+            dflt_.update({p_.arg: d_ for p_, d_ in zip(a_.kwonlyargs, a_.kw_defaults) if d_ is not None})
+        except Exception:  # noqa: BLE001
+            dflt_ = {}
+        for p_ in reversed(params):
+            d_ = dflt_.get(p_)
+            if p_ in bound and isinstance(d_, ast.Constant) and bound[p_] == ("const", d_.value) and type(bound[p_][1]) is type(d_.value):
+                # only trailing ones when positional: a dropped middle argument would shift the rest
+                if all(q_ not in bound for q_ in params[params.index(p_) + 1:]) or params.index(p_) >= want:
+                    del bound[p_]
+        new_args = []
+        for p_ in params[:want]:
+            if p_ not in bound:
+                break
+            new_args.append(bound.pop(p_))
+        if len(new_args) < len(args):
+            # more positional arguments than the reference spelling: keep the extra ones as keywords only if that is unambiguous
+            pass
+        return new_args, sorted(bound.items(), key=lambda kv: kv[0])
 
     # ------------------------------------------------------------------ helper inlining
     def _inline_target(self, f):
